@@ -68,10 +68,12 @@ class C03(Check):
     def shards(self, tier):
         out = []
         for w in WIDTHS:
-            for eol in ("LF", "CRLF", "LF+blank"):
+            for eol in ("LF", "CRLF", "LF+blank", "LF-nofinal", "CRLF-nofinal"):
                 for buf in BUFFERS:
                     if eol == "LF+blank" and (w, buf) not in ((3, 2), (10, 11), (4, 1)):
                         continue  # an empty line between the two records: a few width / buffer combinations
+                    if eol.endswith("-nofinal") and buf not in (2, 11):
+                        continue  # input file whose last line has no terminator: two buffers per width
                     out.append(("api", w, eol, buf, tier))
         from mc.checks import c03_cli
 
@@ -113,7 +115,9 @@ class C03(Check):
         ctx.sample({"long": "20 000 / 9 000 residue records, width 60", "eol": eol, "buffer": buf})
 
     def make_index(self, w, eol, buf):
-        data, _ = fm.make_fasta([(n, s, w) for n, s in RECS], b"\r\n" if eol == "CRLF" else b"\n", True, blank_between=eol.endswith("+blank"))
+        data, _ = fm.make_fasta(
+            [(n, s, w) for n, s in RECS], b"\r\n" if eol.startswith("CRLF") else b"\n", not eol.endswith("-nofinal"), blank_between=eol.endswith("+blank")
+        )
         # the index is built with the same (small) buffer as the streaming: "all buffer sizes" covers both halves
         idx, _asm = index_fasta_file(fm.MemPath(data), buf)
         fi = FastaIndex(fm.MemPath(data), buf)
@@ -173,6 +177,11 @@ class C03(Check):
             # two scaffolds in one assembly: order and per-record wrapping reset
             for r1, r2 in itertools.product(reduced, repeat=2):
                 self.check_scaffolds(fi, w, eol, buf, ll, [("s1", [r1]), ("s2", [r2, r1])], ctx)
+            # whole, untouched input records as scaffolds of their own, in every order and strand combination
+            wholes = [("F", n, 1, len(s), st) for n, s in RECS for st in (1, -1, 0)]
+            for a, b in itertools.product(wholes, repeat=2):
+                self.check_scaffolds(fi, w, eol, buf, ll, [("s1", [a]), ("s2", [b])], ctx)
+                self.check_scaffolds(fi, w, eol, buf, ll, [("s1", [a]), ("s2", [b]), ("s3", [a])], ctx)
             self.check_scaffolds(fi, w, eol, buf, ll, [("empty", [])], ctx)
         ctx.sample({"width": w, "eol": eol, "buffer": buf, "line_length": 3, "scaffold": [["F", "r1", 2, 9, -1], ["G", 7, "scaffold"]]})
 
@@ -190,4 +199,4 @@ class C03(Check):
 
 CHECK = C03()
 # scope added in later rounds, kept in the evidence text
-CHECK.rule += " An empty line between the two records of the input (three width / buffer pairs). CLI: every sixth case also 'restaged' - an older version of the FASTA is indexed by a first invocation, the file is rewritten and FASTA, .fai and .agp are given the same mtime."
+CHECK.rule += " Input files without a final newline (two buffers per width); assemblies of two and three whole-record scaffolds in every order and strand. An empty line between the two records of the input (three width / buffer pairs). CLI: every sixth case also 'restaged' - an older version of the FASTA is indexed by a first invocation, the file is rewritten and FASTA, .fai and .agp are given the same mtime."
